@@ -33,7 +33,7 @@ ASSUMPTIONS = [
 ]
 
 FEAT = gen.Feat(inherit=True, items=True, uncached=True, objrefs=True, shadow=False, max_top=3, max_child=2,
-                max_cells=3, max_rank=4, depth=2, tick=False)
+                max_cells=3, max_rank=4, depth=2, tick=False, partial=True)
 
 CACHE_OPS = {"clear", "clear_all_space_values", "del_item", "clear_items"}
 
